@@ -297,6 +297,7 @@ pub fn property() -> Property {
             "expression references are compared through the offset-free shape of their tree".into(),
             "argument values are the reference evaluation of the argument expressions on the fixed document".into(),
         ],
-        subs: vec![Sub::Bytes(BytesSub { name: "history", f: history, max_len: 600, quick: Budget { threads: 8, cases: 1500 }, thorough: Budget { threads: 16, cases: 80_000 } })],
+        minimise: None,
+        subs: vec![Sub::Bytes(BytesSub { name: "history", f: history, max_len: 600, quick: Budget { threads: 8, cases: 1500 }, thorough: Budget { threads: 16, cases: 80_000 }, keep_unreproducible: false })],
     }
 }
